@@ -169,14 +169,16 @@ class Ctx:
         if self._noreturn_names is None:
             yes, no = set(), set()
             for m in self.index.modules.values():
-                for n in ast.walk(m.tree):
-                    if isinstance(n, (ast.FunctionDef, ast.AsyncFunctionDef)):
-                        r = n.returns
-                        txt = ast.unparse(r) if r is not None else ""
-                        if txt in ("NoReturn", "typing.NoReturn", "Never", "'NoReturn'"):
-                            yes.add(n.name)
-                        else:
-                            no.add(n.name)
+                defs = [f for lst in m.all_defs.values() for f in lst]
+                for c in self.index._all_classes(m):
+                    defs.extend(f for lst in c.all_defs.values() for f in lst)
+                for f in defs:
+                    r = f.node.returns
+                    txt = ast.unparse(r) if r is not None else ""
+                    if txt in ("NoReturn", "typing.NoReturn", "Never", "'NoReturn'"):
+                        yes.add(f.name)
+                    else:
+                        no.add(f.name)
             self._noreturn_names = yes - no
         return self._noreturn_names
 
